@@ -179,7 +179,13 @@ Definition process_acquire_priv_code : list dstmt :=
   [DCall "d.determineCurrentPriv(currentPrompt)"; DIf (DNot (DEq "err" "nil")) [DReturn """"", """", err"] []; DIf (DAtom "util.StringSliceContains(possiblePrivs, d.CurrentPriv)") [DAssign "current" "d.CurrentPriv"] [DIf (DAtom "util.StringSliceContains(possiblePrivs, target)") [DAssign "current" "d.PrivilegeLevels[target].Name"] [DAssign "current" "possiblePrivs[0]"]]; DIf (DEq "current" "target") [DAssign "d.CurrentPriv" "current"; DReturn "noAction, current, nil"] []; DAssign "mapTo" "d.buildPrivChangeMap(current, target, nil)"; DAssign "d.CurrentPriv" "unknownPriv"; DIf (DNot (DEq "d.PrivilegeLevels[mapTo[1]].PreviousPriv" "current")) [DReturn "deescalateAction, current, nil"] []; DReturn "escalateAction, d.PrivilegeLevels[mapTo[1]].Name, nil"].
 (* util/strings.go StringContainsAnySubStrs *)
 Definition string_contains_any_code : list dstmt :=
-  [DRange "ss" "l" [DIf (DAtom "strings.Contains(s, ss)") [DReturn "s"] []]; DReturn """"""].
+  [DRange "ss" "l" [DIf (DAtom "strings.Contains(s, ss)") [DReturn "ss"] []]; DReturn """"""].
 (* response/response.go Response.Record *)
 Definition response_record_code : list dstmt :=
   [DAssign "r.EndTime" "time.Now()"; DAssign "r.ElapsedTime" "r.EndTime.Sub(r.StartTime).Seconds()"; DAssign "r.RawResult" "b"; DAssign "r.Result" "string(b)"; DAssign "s" "util.StringContainsAnySubStrs(r.Result, r.FailedWhenContains)"; DIf (DNot (DEq "s" """""")) [DAssign "r.Failed" "&OperationError{ Input: r.Input, Output: r.Result, ErrorString: s, }"] []].
+(* driver/generic/sendcommands.go Driver.SendCommands *)
+Definition send_commands_code : list dstmt :=
+  [DIf (DEq "len(commands)" "0") [DReturn "nil, fmt.Errorf(""%w: no inputs provided"", util.ErrNoOp)"] []; DCall "NewOperation(opts...)"; DIf (DNot (DEq "err" "nil")) [DReturn "nil, err"] []; DAssign "m" "response.NewMultiResponse(d.Transport.GetHost())"; DRange "input" "commands[:len(commands)-1]" [DCall "d.sendCommand( input, op, opts..., )"; DIf (DNot (DEq "err" "nil")) [DReturn "nil, err"] []; DCall "m.AppendResponse(r)"; DIf (DAnd (DAtom "op.StopOnFailed") (DNot (DEq "r.Failed" "nil"))) [DReturn "m, err"] []]; DCall "d.sendCommand( commands[len(commands)-1], op, opts..., )"; DIf (DNot (DEq "err" "nil")) [DReturn "nil, err"] []; DCall "m.AppendResponse(r)"; DReturn "m, nil"].
+(* response/multi.go MultiResponse.AppendResponse *)
+Definition append_response_code : list dstmt :=
+  [DAssign "mr.EndTime" "time.Now()"; DAssign "mr.ElapsedTime" "r.EndTime.Sub(r.StartTime).Seconds()"; DAssign "re" "r.Failed.(*OperationError)"; DIf (DNot (DEq "re" "nil")) [DIf (DEq "mr.Failed" "nil") [DAssign "mr.Failed" "&MultiOperationError{}"] []; DAssign "e" "mr.Failed.(*MultiOperationError)"; DAssign "ok" "ok of mr.Failed.(*MultiOperationError)"; DIf (DAtom "ok") [DAssign "e.Operations" "append(e.Operations, re)"] []] []; DAssign "mr.Responses" "append(mr.Responses, r)"].
